@@ -293,7 +293,7 @@ func C12(tier string) int {
 	budget := 150 * time.Second
 	if tier == "thorough" {
 		maxN = 7
-		budget = 60 * time.Minute
+		budget = 20 * time.Minute
 	}
 	deadline := time.Now().Add(budget)
 	cells, successes, refusals := 0, 0, 0
@@ -637,7 +637,7 @@ func C12(tier string) int {
 	// Generations that share a participant and reach their commit step at the same time.
 	concBudget := 120 * time.Second
 	if tier == "thorough" {
-		concBudget = 10 * time.Minute
+		concBudget = 6 * time.Minute
 	}
 	conc, err := c12Concurrent(run, time.Now().Add(concBudget))
 	if err != nil {
